@@ -3,7 +3,7 @@
 (* Trace validation for Convert.tla.                                       *)
 (*                                                                         *)
 (* Input: NDJSON (env TRACE_FILE), one recorded scenario per line:         *)
-(*   {"id": str, "init": IR, "ev": [event, ...]}                          *)
+(*   {"id": str, "mode": "hop" | "chain", "init": IR, "ev": [event, ...]} *)
 (* Events (recorded from the real doctrans by vf/convert_driver.py):       *)
 (*   emit  : {"a":"emit","kind","dd","ftype","inline","kwonly","view","exc",*)
 (*            "flags":{rest,google,numpy}, "py":{...}, "digest"}           *)
@@ -25,8 +25,9 @@ VARIABLES tid,      \* which trace
           cur,      \* current description (last observed)
           art,      \* [present, kind, dd, ftype, inline, kwonly]
           ref,      \* reference description for ConfigTransparent ("none" record until a reset)
-          last      \* [kind, dd, n, digest, stable]: run of identical consecutive hops (C08)
-tvars == <<tid, l, cur, art, ref, last>>
+          last,     \* [kind, dd, n, digest, stable]: run of identical consecutive hops (C08)
+          path      \* <<kind, dd>> of the hops completed so far (C05)
+tvars == <<tid, l, cur, art, ref, last, path>>
 
 NoArt  == [present |-> FALSE, kind |-> "none", dd |-> FALSE, ftype |-> "static", inline |-> FALSE, kwonly |-> FALSE]
 NoLast == [kind |-> "none", dd |-> FALSE, n |-> 0, digest |-> "", irn |-> 0]
@@ -62,8 +63,31 @@ RetClauses(k, dd, b, a) ==
              Cl("RetKept.ann", "return", a.dbase # b.dbase \/ a.dann \in A_DAnn(k, dd, b, a.def)) >>
      ELSE << >>)
 
-ParseClauses(e) ==
+\* C05 ("chain" scenarios): the description after every hop is compared with the *original* one, with the kinds on the
+\* path deciding what may have been filled or lost (ChainRefines of Convert.tla, clause by clause)
+ChainClauses(e) ==
   IF e.exc # "none" THEN << Cl("NeverRaises", "-", FALSE) >>
+  ELSE
+    LET a == e.ir  o == T.init  p == Append(path, <<art.kind, art.dd>>) IN
+      << Cl("NeverRaises", "-", TRUE),
+         Cl("Chain.Summary", "-", a.doc = o.doc),
+         Cl("Chain.NamesOrder", "-", LET common(x, y) == SelectSeq(Names(x), LAMBDA n : HasName(y.params, n))
+                                     IN  common(a, o) = common(o, a)),
+         Cl("Chain.NoExtraNames", "-", \A i \in 1..Len(a.params) : HasName(o.params, a.params[i].name)) >>
+      \o FlattenSeq([i \in 1..Len(o.params) |->
+            LET s == o.params[i] IN
+            IF HasName(a.params, s.name)
+              THEN LET c == ByName(a.params, s.name) IN
+                   << Cl("Chain.NamePresent", s.name, TRUE),
+                      Cl("Chain.Typ", s.name, c.typ \in ChainTyps(p, s)),
+                      Cl("Chain.Def", s.name, c.def \in ChainDefs(p, s)),
+                      Cl("Chain.Prose", s.name, c.dbase = s.dbase /\ c.dann # "diff") >>
+              ELSE << Cl("Chain.NamePresent", s.name, FALSE) >>])
+      \o << Cl("Chain.Ret", "return", RetRefines(p, o.ret, a.ret)) >>
+
+ParseClauses(e) ==
+  IF T.mode = "chain" THEN ChainClauses(e)
+  ELSE IF e.exc # "none" THEN << Cl("NeverRaises", "-", FALSE) >>
   ELSE
     LET a == e.ir  b == cur  k == art.kind  dd == art.dd IN
       << Cl("NeverRaises", "-", TRUE),
@@ -162,6 +186,7 @@ Init == /\ tid \in 1..Len(Traces)
         /\ art = NoArt
         /\ ref = NoRef
         /\ last = NoLast
+        /\ path = << >>
 
 StepEmit(e) ==
   /\ e.a = "emit"
@@ -171,7 +196,7 @@ StepEmit(e) ==
   /\ last' = IF last.kind = e.kind /\ last.dd = e.dd
                THEN [last EXCEPT !.n = @ + 1, !.digest = e.digest]
                ELSE [kind |-> e.kind, dd |-> e.dd, n |-> 1, digest |-> e.digest, irn |-> 0]
-  /\ UNCHANGED <<cur, ref>>
+  /\ UNCHANGED <<cur, ref, path>>
 
 StepParse(e) ==
   /\ e.a = "parse"
@@ -179,6 +204,7 @@ StepParse(e) ==
   /\ cur' = IF e.exc = "none" THEN e.ir ELSE cur
   /\ art' = NoArt
   /\ last' = [last EXCEPT !.irn = @ + 1]
+  /\ path' = Append(path, <<art.kind, art.dd>>)
   /\ UNCHANGED ref
 
 StepReset(e) ==
@@ -187,6 +213,7 @@ StepReset(e) ==
   /\ cur' = T.init
   /\ art' = NoArt
   /\ last' = NoLast
+  /\ path' = << >>
 
 Step == /\ l <= Len(T.ev)
         /\ LET e == T.ev[l] IN StepEmit(e) \/ StepParse(e) \/ StepReset(e)
@@ -196,7 +223,7 @@ Step == /\ l <= Len(T.ev)
 Done == /\ l = Len(T.ev) + 1
         /\ PrintT(<<"D", T.id, Len(T.ev)>>)
         /\ l' = l + 1
-        /\ UNCHANGED <<tid, cur, art, ref, last>>
+        /\ UNCHANGED <<tid, cur, art, ref, last, path>>
 
 Next == Step \/ Done
 TraceSpec == Init /\ [][Next]_tvars
